@@ -57,6 +57,12 @@ CLAIMED.update({
              note='Trusted: hand model Geom/Dim2.v + differential tie; stdlib real axioms; the end point is reached up to rounding of segments*(1/segments) (measured).',
              ref='DESIGN.md section 7 C08'),
 })
+CLAIMED.update({
+ 'C03': dict(technique='Coq model of the ear-clipping loop compared index-for-index with the implementation (bit-exact float reading); exact rational tiling oracle on implementation output over generated simple polygons; structural theorems in progress',
+             text='The clipping loop, the ear test, the left-most scan and the four entry points (with their six projection cases) are mirrored in coq/Geom/Tri.v over the Num class; evaluated on binary64 inside Coq they must return exactly the implementation index list (only + - * / and comparisons are involved, so the float reading is exact). An exact (rational) oracle decides on the implementation output: n-2 triangles, indices in range, windings as required, every polygon edge used once and never reversed, every diagonal shared by two triangles, area sum = polygon area (degenerate slivers tolerated at 1e-9 of the area). Proved so far: rejection of inputs with fewer than 4 vertices. The complete => valid theorems (antisymmetrised boundary identity, shoelace telescoping) are designed (DESIGN.md) but not yet machine-checked; completion of the ear search is exploration by nature. Known finding: near-collinear vertex configurations.',
+             note='Trusted: hand model Geom/Tri.v + exact differential tie; oracle props/trioracle.py (exact Fractions) is exploration-level.',
+             ref='DESIGN.md section 7 C03'),
+})
 NOT_YET = {}
 def main():
     props = [json.loads(l)['id'] for l in open('properties.jsonl')]
